@@ -24,14 +24,18 @@ PLAUSIBLE = {
     "getcwd": [E.ENOENT, E.ERANGE, E.EACCES],
     "ttyname_r": [E.EBADF, E.ENOTTY, E.ERANGE, E.ENODEV],
     "gethostname": [E.ENAMETOOLONG, E.EFAULT],
-    "getpwuid_r": [E.EIO, E.ENOENT, E.EMFILE, E.ERANGE, E.EINTR],
-    "getgrgid_r": [E.EIO, E.ENOENT, E.EMFILE, E.ERANGE, E.EINTR],
+    "getpwuid_r": [E.EIO, E.ERANGE, E.ENOMEM, E.ENOENT, E.EMFILE, E.EINTR],
+    "getgrgid_r": [E.EIO, E.ERANGE, E.ENOMEM, E.ENOENT, E.EMFILE, E.EINTR],
     "getlogin_r": [E.ENXIO, E.ENOTTY, E.ERANGE, E.ENOENT],
     "time": [E.EFAULT], "localtime_r": [E.EOVERFLOW], "gettimeofday": [E.EFAULT, E.EINVAL],
     "getutline_r": [E.ESRCH, E.EIO, E.EACCES],
     "dprintf": [E.EIO, E.ENOSPC, E.EAGAIN, E.EBADF, E.EINTR],
     "fprintf": [E.EIO, E.ENOSPC, E.EAGAIN, E.EBADF, E.EINTR],
 }
+SHORT_COUNT = 9999          # libfault: a short write()/send() instead of an error
+SHORT_FNS = ("write", "send")
+# functions whose every plausible errno is tried in the quick tier as well (few positions, error paths that differ by errno)
+ALL_ERRNOS_ALWAYS = ("getpwuid_r", "getgrgid_r", "getlogin_r", "write", "send", "connect", "open")
 NEVER_FAIL = ("getpid", "getppid", "setutent", "endutent", "openlog", "syslog", "closelog")
 
 
